@@ -112,10 +112,20 @@ def st_report():
     return st.integers(1, 8).flatmap(for_sub)
 
 
-def build_report(c):
+def _field(PFE, wv, helper: bool):
+    """A step id / error code of width wv[0]: through the generic constructor or through the documented fixed-width helper class."""
+    from spacepackets.ecss import fields as F
+
+    w, v = wv
+    if helper and w in (1, 2, 4):
+        return {1: F.PacketFieldU8, 2: F.PacketFieldU16, 4: F.PacketFieldU32}[w](v)
+    return PFE.with_byte_size(w, v)
+
+
+def build_report(c, helper_fields=False):
     sp, s1, PFE, RequestId, PusTc = _m()
-    step = None if c["step"] is None else PFE.with_byte_size(c["step"][0], c["step"][1])
-    fail = None if c["err"] is None else s1.FailureNotice(PFE.with_byte_size(c["err"][0], c["err"][1]), bytes.fromhex(c["fail_data"]))
+    step = None if c["step"] is None else _field(PFE, c["step"], helper_fields)
+    fail = None if c["err"] is None else s1.FailureNotice(_field(PFE, c["err"], helper_fields), bytes.fromhex(c["fail_data"]))
     params = s1.VerificationParams(build_req_id(c["req_id"]), step, fail)
     return s1.Service1Tm(apid=c["apid"], subservice=s1.Subservice(c["sub"]), timestamp=bytes.fromhex(c["ts"]), verif_params=params, seq_count=c["seq"],
                          packet_version=c["ver"], space_time_ref=c["time_ref"], destination_id=c["dest_id"])
@@ -170,6 +180,28 @@ def check_report(c):
 
     d2 = s1.Service1Tm.from_tm(PusTm.unpack(want, len(ts)), up)
     eq(devs, "from_tm.obs", obs_report(d2), want_report_obs(c))
+    # step id / error code given through the fixed-width helper classes
+    rh = build_report(c, helper_fields=True)
+    eq(devs, "helper_fields.bytes", bytes(rh.pack()), want)
+    dh = s1.Service1Tm.unpack(want, up)
+    true(devs, "helper_fields.eq", bool(dh == rh) and bool(rh == dh), "decoded report != original built with PacketFieldU8/U16/U32 fields")
+    if c["step"] is not None:
+        true(devs, "helper_fields.step_id_eq", bool(dh.step_id == rh.step_id) and bool(rh.step_id == dh.step_id), "decoded step id != original helper-class step id")
+    if c["err"] is not None:
+        true(devs, "helper_fields.failure_notice_eq", bool(dh.failure_notice == rh.failure_notice), "decoded failure notice != original with helper-class error code")
+    # one UnpackParams object serves a whole downlink: decoding must not change it, and a report of another kind decoded
+    # earlier with the same object must not influence this one
+    w_step, w_err = (c["step"][0] if c["step"] else 1), (c["err"][0] if c["err"] else 1)
+    up2 = s1.UnpackParams(len(ts), w_step, w_err)
+    before = (up2.timestamp_len, up2.bytes_step_id, up2.bytes_err_code)
+    other_sub = {1: 6, 2: 5, 3: 6, 4: 5, 5: 2, 6: 1, 7: 6, 8: 5}[c["sub"]]
+    oc = dict(c, sub=other_sub, step=[w_step, 1] if other_sub in (5, 6) else None, err=[w_err, 2] if other_sub % 2 == 0 else None,
+              fail_data="0a0b" if other_sub % 2 == 0 else "")
+    other_raw = RP.pus_tm(oc["apid"], oc["seq"], 1, oc["sub"], 0, oc["dest_id"], oc["time_ref"], ts, want_source_data(oc), ver=oc["ver"])
+    eq(devs, "shared_params.other_report", obs_report(s1.Service1Tm.unpack(other_raw, up2)), want_report_obs(oc))
+    eq(devs, "shared_params.unchanged_by_decode", (up2.timestamp_len, up2.bytes_step_id, up2.bytes_err_code), before, "Service1Tm.unpack modified the caller's UnpackParams")
+    eq(devs, "shared_params.this_report_after_other", obs_report(s1.Service1Tm.unpack(want, up2)), want_report_obs(c))
+    eq(devs, "shared_params.unchanged_by_second_decode", (up2.timestamp_len, up2.bytes_step_id, up2.bytes_err_code), before, "Service1Tm.unpack modified the caller's UnpackParams")
     return devs
 
 
